@@ -31,6 +31,7 @@ class Gen:
         self.dicts = [k for k, v in data.items() if isinstance(v, dict)]
         self.nested = [k for k, v in data.items() if isinstance(v, list) and not all(isinstance(x, str) for x in v)]
         self.wild = False
+        self.in_tstr = False
         self.last_nested = False
         self.nvar = 0
         self.partials: dict[str, str] = {}
@@ -54,9 +55,17 @@ class Gen:
         return self.r.choice(self.raw)
 
     def sarg(self) -> str:
-        """A string-valued filter argument: data or plain literal."""
-        if self.r.random() < 0.6:
+        """A string-valued filter argument: data, a template string with
+        interpolated data, or a plain literal."""
+        k = self.r.random()
+        if k < 0.5:
             return self.svar()
+        if k < 0.65 and not self.in_tstr:
+            self.in_tstr = True
+            try:
+                return self.tstr()
+            finally:
+                self.in_tstr = False
         return "'" + self.r.choice(["", " ", "a", ", ", "lt;", "x"]) + "'"
 
     def sexpr(self, depth: int = 0) -> str:
@@ -122,6 +131,7 @@ class Gen:
         """A template string with DATA interpolations (paths, filters inside ${})."""
         r = self.r
         parts = []
+        outer, self.in_tstr = self.in_tstr, True
         for _ in range(r.randint(1, 3)):
             parts.append(r.choice(["row-", "a", " b ", "lt;", "", "x;"]))
             k = r.random()
@@ -144,6 +154,7 @@ class Gen:
                 inner += f" | default: {self.sarg()} | " + r.choice(STRUCT_F)
             parts.append("${" + inner + "}")
         parts.append(r.choice(["", "-z", " b"]))
+        self.in_tstr = outer
         return '"' + "".join(parts) + '"'
 
     def witem(self) -> str:
@@ -430,6 +441,12 @@ FIXED: list[tuple[dict[str, str], dict[str, Any]]] = [
     ({"main": "{% extends 'base' %}{% block b %}[{{ block.super }}|{% echo block.super %}]{% echo s %}{% endblock %}",
       "base": "B{% block b %}base {% echo s %}{% cycle s %}{% endblock %}E"}, {"s": "<a&'\">"}),
     ({"main": "{% echo \"a ${s} b\" %}{% assign v = \"x${s}\" %}{% echo v %}{% with a: s %}{% echo a %}{% endwith %}"}, {"s": "<a&'\">"}),
+    # template strings keep their literal text and escape the interpolated values (fix 611e27a): in an
+    # output statement, assign, echo, a filter argument, a capture, a partial argument; both API modes
+    ({"main": "{{ \"[b]${x}[/b]\" }}{% assign v = \"[i]${x | upcase}[/i]\" %}{{ v }}{{ v | append: x }}{% echo \"[u]${x}[/u]\" %}"
+              "{{ x | append: \"[a]${x}[/a]\" }}{{ l | join: \"[s]${x}\" }}{% capture c %}{{ \"[c]${x}\" }}{% endcapture %}{{ c }}{{ c | upcase }}"
+              "{% render 'p', y: \"[r]${x}\" %}{{ \"${x}${l}${n}\" }}", "p": "{{ y }}{% echo y | prepend: \"[p]${y}\" %}"},
+     {"x": "<a&'\">", "l": ["<", ["&"]], "n": None}),
     # items of a writing tag that are not plain paths: template strings with interpolated data, mixed lists
     ({"main": "{% for x in l %}<{% cycle \"row-${cls}\", 'alt' %}>{% endfor %}".replace("<", "[").replace(">", "]")},
      {"cls": "\"><script>", "l": [1, 2, 3]}),
